@@ -556,3 +556,115 @@ Example chk_nearest_examples :
   chk_nearest 24703282292062328 (-340) 1 = true /\
   chk_nearest 17976931348623157 292 9218868437227405311 = true.  (* largest finite *)
 Proof. vm_compute. repeat split; reflexivity. Qed.
+
+(** ** Float tokens carry the exact decimal value of a well-formed float literal *)
+Definition sign_text (neg : bool) (s : list N) : Prop :=
+  (s = [] /\ neg = false) \/ (s = [c_PLUS] /\ neg = false) \/ (s = [c_MINUS] /\ neg = true).
+
+Definition signed (neg : bool) (x : N) : Z := if neg then (- Z.of_N x)%Z else Z.of_N x.
+
+(** [l] = integer part, optional point and fraction part, optional exponent part, rest; the parts
+    are runs of decimal digits and separators; [m] is the value of all mantissa digits and
+    [m * 10^e] the value of the literal *)
+Definition float_literal (l : list N) (m : N) (e : Z) (rest : list N) : Prop :=
+  exists ib fb (dot : bool) ex ev,
+    l = ib ++ (if dot then c_DOT :: fb else []) ++ ex ++ rest /\
+    Forall (char_ok 10) ib /\ Forall (char_ok 10) fb /\ (dot = false -> fb = []) /\
+    ((ex = [] /\ ev = 0%Z) \/
+     exists mark s body neg,
+       ex = mark :: s ++ body /\ (mark = c_e \/ mark = c_E) /\ sign_text neg s /\
+       Forall (char_ok 10) body /\ digits_of 10 body <> [] /\
+       ev = signed neg (horner 10 0 (digits_of 10 body))) /\
+    digits_of 10 ib ++ digits_of 10 fb <> [] /\
+    m = horner 10 0 (digits_of 10 ib ++ digits_of 10 fb) /\
+    e = (ev - Z.of_nat (length (digits_of 10 fb)))%Z /\
+    float_overflows m e = false.
+
+Lemma app_nonnil_l : forall (A : Type) (a b : list A), a <> [] -> a ++ b <> [].
+Proof. intros A [|x a] b H; [contradiction | discriminate]. Qed.
+
+Lemma is_exp_char_spec : forall c, is_exp_char c = true -> c = c_e \/ c = c_E.
+Proof.
+  intros c H. unfold is_exp_char in H. apply orb_true_iff in H as [H|H]; apply N.eqb_eq in H; auto.
+Qed.
+
+Theorem lex_float_literal : forall l m e rest,
+  lex_float l = NOk (TFloat m e) rest -> float_literal l m e rest.
+Proof.
+  intros l m e rest H. unfold lex_float in H.
+  destruct (run 10 l) as [[ids ik] r1] eqn:Hrun.
+  destruct (run_spec _ _ _ _ _ Hrun) as (ib & Hl & _ & Hib & Hids & _). subst l ids.
+  destruct r1 as [|c t].
+  { (* digits only *)
+    destruct (digits_of 10 ib) as [|d0 ds] eqn:Hd; [discriminate|].
+    destruct (float_overflows (horner 10 0 (d0 :: ds)) 0) eqn:Ho; [discriminate|].
+    injection H as <- <- <-. exists ib, [], false, [], 0%Z. rewrite Hd.
+    repeat split; auto; try (left; split; reflexivity); cbn [digits_of flat_map app]; try discriminate.
+    all: rewrite ?app_nil_r; reflexivity. }
+  destruct ((c =? c_DOT) && starts_with_sep t) eqn:Hcut.
+  { (* cut at the point *)
+    apply andb_true_iff in Hcut as [Hc _]. apply N.eqb_eq in Hc. subst c.
+    destruct (digits_of 10 ib) as [|d0 ds] eqn:Hd; [discriminate|].
+    destruct (float_overflows (horner 10 0 (d0 :: ds)) 0) eqn:Ho; [discriminate|].
+    injection H as <- <- <-. exists ib, [], true, [], 0%Z. rewrite Hd.
+    repeat split; auto; try (left; split; reflexivity); cbn [digits_of flat_map app]; try discriminate.
+    all: rewrite ?app_nil_r; reflexivity. }
+  (* optional fraction *)
+  assert (Hfrac : exists fb (dot : bool) r2,
+             (if c =? c_DOT then let '(fds, _, r2) := run 10 t in (fds, r2) else ([], c :: t)) =
+               (digits_of 10 fb, r2) /\
+             c :: t = (if dot then c_DOT :: fb else []) ++ r2 /\ Forall (char_ok 10) fb /\
+             (dot = false -> fb = []) /\ (dot = false -> (c =? c_DOT) = false)).
+  { destruct (c =? c_DOT) eqn:Hc.
+    - apply N.eqb_eq in Hc. subst c. destruct (run 10 t) as [[fds fk] r2] eqn:Hr2.
+      destruct (run_spec _ _ _ _ _ Hr2) as (fb & -> & _ & Hfb & -> & _).
+      exists fb, true, r2. repeat split; auto; discriminate.
+    - exists [], false, (c :: t). repeat split; auto. }
+  destruct Hfrac as (fb & dot & r2 & Hfr & Hsplit & Hfb & Hdot & Hnodot). rewrite Hfr in H.
+  destruct (digits_of 10 ib ++ digits_of 10 fb) as [|d0 ds] eqn:Hd; [discriminate|].
+  rewrite <- Hd in H.
+  assert (Hne : digits_of 10 ib ++ digits_of 10 fb <> []) by (rewrite Hd; discriminate).
+  destruct r2 as [|c2 t2].
+  { destruct (float_overflows _ _) eqn:Ho; [discriminate|]. injection H as <- <- <-.
+    exists ib, fb, dot, [], 0%Z. rewrite Hsplit.
+    repeat split; auto; try (left; split; reflexivity). }
+  destruct (is_exp_char c2) eqn:Hex.
+  2:{ destruct (float_overflows _ _) eqn:Ho; [discriminate|]. injection H as <- <- <-.
+      exists ib, fb, dot, [], 0%Z. rewrite Hsplit.
+      repeat split; auto; try (left; split; reflexivity). }
+  (* exponent *)
+  assert (Hsign : exists neg s t',
+             (match t2 with
+              | s0 :: t'0 => if s0 =? c_MINUS then (true, t'0) else if s0 =? c_PLUS then (false, t'0) else (false, t2)
+              | [] => (false, t2)
+              end) = (neg, t') /\ t2 = s ++ t' /\ sign_text neg s).
+  { destruct t2 as [|s0 t'0].
+    - exists false, [], []. repeat split. now left.
+    - destruct (s0 =? c_MINUS) eqn:Hm; [|destruct (s0 =? c_PLUS) eqn:Hp].
+      + apply N.eqb_eq in Hm. subst s0. exists true, [c_MINUS], t'0. repeat split. right. now right.
+      + apply N.eqb_eq in Hp. subst s0. exists false, [c_PLUS], t'0. repeat split. right. now left.
+      + exists false, [], (s0 :: t'0). repeat split. now left. }
+  destruct Hsign as (neg & s & t' & Hsg & Ht2 & Hst). rewrite Hsg in H.
+  destruct (run 10 t') as [[eds ek] r3] eqn:Hr3.
+  destruct (run_spec _ _ _ _ _ Hr3) as (body & -> & _ & Hbody & -> & _).
+  destruct (digits_of 10 body) as [|e0 es] eqn:He; [discriminate|]. rewrite <- He in H.
+  destruct (float_overflows _ _) eqn:Ho; [discriminate|]. injection H as <- <- <-.
+  exists ib, fb, dot, (c2 :: s ++ body), (signed neg (horner 10 0 (digits_of 10 body))).
+  rewrite Hsplit, Ht2. repeat split; auto.
+  - cbn [app]. rewrite <- !app_assoc. reflexivity.
+  - right. exists c2, s, body, neg. repeat split; auto.
+    + exact (is_exp_char_spec c2 Hex).
+    + rewrite He. discriminate.
+Qed.
+
+(** every float token of [lex_number] comes with such a literal *)
+Theorem lex_number_float_literal : forall l m e rest,
+  lex_number l = NOk (TFloat m e) rest -> float_literal l m e rest.
+Proof.
+  intros l m e rest H. unfold lex_number in H.
+  destruct (lex_prefixed_shape 2 98 l) as [E|[E|(v1 & r1 & E)]]; rewrite E in H; try discriminate.
+  destruct (lex_prefixed_shape 8 111 l) as [E2|[E2|(v2 & r2 & E2)]]; rewrite E2 in H; try discriminate.
+  destruct (lex_prefixed_shape 16 120 l) as [E3|[E3|(v3 & r3 & E3)]]; rewrite E3 in H; try discriminate.
+  destruct (lex_decimal_float _ _ _ _ H) as (_ & _ & _ & _ & _ & _ & Hf).
+  exact (lex_float_literal _ _ _ _ Hf).
+Qed.
